@@ -27,7 +27,9 @@ EXTENDS Naturals, Sequences, FiniteSets, TLC
 CONSTANTS MaxKids,      \* number of kid slots
           Places,       \* subset of {"direct","wrapped","nested"}
           RIds,         \* subset of {"r1","rX","a1"}
-          RSigs,        \* subset of {"none","att","attIdp","gen","lifted"}
+          RSigs,        \* subset of {"none","att","attIdp","gen","lifted","reloc","malformed"}
+                        \* reloc: the IdP's root signature moved into a wrapper child; malformed: the IdP's root
+                        \* signature with its shape damaged (SignatureValue removed / SignedInfo or KeyInfo duplicated)
           KidSigs,      \* subset of {"none","own","copied","att","attIdp"}
           Slot2Places,  \* places allowed in slots after the first (bounds the product)
           Slot2Sigs     \* signature states allowed in slots after the first
@@ -60,7 +62,7 @@ Issuable(in) == /\ in.rid = "r1"
                 /\ \A i \in DOMAIN in.kids : LET k == in.kids[i] IN
                        k.c \in Genuine /\ k.sig \in {"none", "own"} /\ k.place = "direct" /\ k.id = "own"
 
-InputOK(in) == (in.rsig = "gen" => Issuable(in))
+InputOK(in) == (in.rsig \in {"gen", "reloc", "malformed"} => Issuable(in))
 
 Inputs == { in \in [rid : RIds, rsig : RSigs, kids : KidSeqs] : InputOK(in) }
 \* (concretisation detail, chosen by seed like the layout: on odd seeds the sender also writes
@@ -85,6 +87,8 @@ RSig(in) ==
     [] in.rsig = "attIdp" -> [by |-> "att",  shows |-> "idpA", ref |-> in.rid, over |-> "self"]
     [] in.rsig = "gen"    -> [by |-> "idpA", shows |-> "idpA", ref |-> in.rid, over |-> "self"]
     [] in.rsig = "lifted" -> [by |-> "idpA", shows |-> "idpA", ref |-> "r1",   over |-> "GR0"]
+    [] in.rsig = "reloc"  -> [by |-> "idpA", shows |-> "idpA", ref |-> in.rid, over |-> "elsewhere"]   \* the wrapper it now sits in was not there when it was made
+    [] in.rsig = "malformed" -> [by |-> "idpA", shows |-> "idpA", ref |-> in.rid, over |-> "self"]
     [] OTHER              -> NoSig
 
 \* verifyCertificate (l.507-563): store = {idpA}, clock inside the window
@@ -106,7 +110,8 @@ RootMatch(in) == SelectSeq(RootCands(in), LAMBDA x : x.s.ref = in.rid)
 
 \* Validate(root) (l.567-583)
 RootVerify(in) ==
-   IF RootMatch(in) = << >> THEN "missing"
+   IF in.rsig = "malformed" THEN "err_shape"     \* validateShape (l.387-400) fails before any reference is looked at
+   ELSE IF RootMatch(in) = << >> THEN "missing"
    ELSE LET x == Head(RootMatch(in)) IN
         IF ~CertOK(x.s) THEN "err_cert"
         ELSE IF ~ValueOK(x.s) THEN "err_value"
@@ -242,7 +247,7 @@ C07_OK(cfg, in, o) ==
 
 \* C02 (fragment visible here): a root signature that names the root and does not verify is fatal
 C02_OK(cfg, in, o) ==
-   (~cfg.skip /\ (in.rsig \in {"att", "attIdp"} \/ (in.rsig = "lifted" /\ in.rid = "r1" /\ ~IsGR0(in)))) => o.res = "reject"
+   (~cfg.skip /\ (in.rsig \in {"att", "attIdp", "reloc", "malformed"} \/ (in.rsig = "lifted" /\ in.rid = "r1" /\ ~IsGR0(in)))) => o.res = "reject"
 
 \* C20: whatever is accepted was pre-decoded to the same addressing fields
 C20_OK(cfg, in, o) == (o.res = "accept") => (o.pre.ok /\ o.pre.agree)
